@@ -58,6 +58,10 @@ def sid_to_dict(sid: str, _type: Optional[str] = None) -> Tuple[str, dict] | Tup
     if not data:
         return None, None
 
+    # the sid must be the canonical rendering of the resolved fields (eg. no trailing newline)
+    if r.get_format_for(template).format(**data) != sid:
+        return None, None
+
     return template, data
 
 
